@@ -501,7 +501,11 @@ def _flatten(*list_of_arrays):
     grd = np.meshgrid(*list_of_arrays, **kwargs)
     # (labels of different kinds are kept as they are, not cast to a common type)
     kinds = set(np.asarray(a).dtype.kind for a in list_of_arrays)
-    array_of_tuples = np.array(list(zip(*[g.ravel() for g in grd])), dtype=object if len(kinds) > 1 else None)
+    tuples = list(zip(*[g.ravel() for g in grd]))
+    if len(tuples) == 0:
+        # an empty member axis: no combination at all (np.array([]) would be 1-d)
+        return np.empty((0, len(list_of_arrays)), dtype=object)
+    array_of_tuples = np.array(tuples, dtype=object if len(kinds) > 1 else None)
     assert array_of_tuples.shape[1] == len(list_of_arrays), "pb when reshaping: {} and {}".format(array_of_tuples.shape, len(list_of_arrays))
     assert array_of_tuples.shape[0] == np.prod([x.size for x in list_of_arrays]), "pb when reshaping: {} and {}".format(array_of_tuples.shape, np.prod([x.size for x in list_of_arrays]))
     return array_of_tuples
